@@ -138,3 +138,57 @@ pub fn start_all(sc: &mut Scenario, at: u64) {
         sc.at(at, Op::Start { node: i });
     }
 }
+
+/// Single-fault sweep: one variant per (datagram index k < cap, fault kind) of a fault-free base
+/// run, with exactly that datagram dropped / duplicated / delayed by `delay_ms` / corrupted.
+/// Only datagrams sent or received by a real node are considered.
+pub fn single_fault_variants(
+    sc: &Scenario,
+    base: &crate::exec::RunLog,
+    kinds: &[&str],
+    cap: usize,
+    delay_ms: u64,
+) -> Vec<Scenario> {
+    use crate::log::{EpKind, Ev, SendOutcome};
+    use crate::net::{ExplicitFault, FaultKind};
+    let reals: Vec<std::net::SocketAddr> = sc.reals.iter().map(|r| r.addr).collect();
+    let mut out = Vec::new();
+    let mut k = 0usize;
+    for e in &base.log {
+        if let Ev::Send { src, dst, ord, outcome: SendOutcome::Queued { .. }, src_kind, seq, .. } = e {
+            if !(reals.contains(src) || reals.contains(dst)) {
+                continue;
+            }
+            if k >= cap {
+                break;
+            }
+            k += 1;
+            for kind in kinds {
+                let fk = match *kind {
+                    "drop" => FaultKind::Drop,
+                    "dup" => FaultKind::Dup { lat: (seq % 7) * 5 },
+                    "delay" => FaultKind::Delay { ms: delay_ms },
+                    "corrupt" => FaultKind::Corrupt { mode: (seq % 7) as u8, a: (*seq as u32).wrapping_mul(2654435761), b: (*seq as u32) ^ 0x5bd1 },
+                    "send_err" => {
+                        if *src_kind != EpKind::Real {
+                            continue;
+                        }
+                        FaultKind::SendErr { code: 101 }
+                    }
+                    "stall" => {
+                        if *src_kind != EpKind::Real {
+                            continue;
+                        }
+                        FaultKind::Stall { ms: delay_ms }
+                    }
+                    _ => continue,
+                };
+                let mut v = sc.clone();
+                v.net.clear_random_faults();
+                v.net.explicit = Some(vec![ExplicitFault { src: *src, dst: *dst, ord: *ord, kind: fk }]);
+                out.push(v);
+            }
+        }
+    }
+    out
+}
